@@ -189,3 +189,28 @@ Theorem C02_inequality_extends_optional :
   (embeds_opt sg p f = true -> embeds_ineq [] sg p f = true).
 Proof. exact embeds_ineq_extends_opt. Qed.
 Print Assumptions C02_inequality_extends_optional.
+
+(** * The oracles applied to the implementation's results are sound
+
+    [c02_found sg rs] is what the correspondence run evaluates on the results
+    the Go matcher returned for a planted assignment (Corr/MatchCorr.v,
+    [c02_applicable] and [c02_opt_applicable]).  Whatever the completeness
+    theorems guarantee passes it, so on code that computes what the model
+    computes the oracle cannot raise an alarm. *)
+From Sheens Require Import Proofs.C02OracleSound.
+
+Theorem C02_oracle_sound :
+  forall ord, perm_oracle ord -> forall p f sg,
+  c02_pre p f sg = true -> embeds sg p f = true ->
+  exists n0, forall fuel, n0 <= fuel ->
+    exists bss, match_ ord fuel p f [] = Ok bss /\ c02_found sg bss = true.
+Proof. exact c02_oracle_sound. Qed.
+Print Assumptions C02_oracle_sound.
+
+Theorem C02_optional_oracle_sound :
+  forall ord, perm_oracle ord -> forall p f sg,
+  c02_pre_opt p f sg = true -> embeds_opt sg p f = true ->
+  exists n0, forall fuel, n0 <= fuel ->
+    exists bss, match_ ord fuel p f [] = Ok bss /\ c02_found sg bss = true.
+Proof. exact c02_opt_oracle_sound. Qed.
+Print Assumptions C02_optional_oracle_sound.
